@@ -22,6 +22,10 @@ add("C03", "exploration",
     "runtime monitoring: token search in decoded/un-archived bodies of credential-less requests with a credentialed sanity half; in-harness HTTP and FastCGI backends emit tokens; fixture generator and child supervisor shared with C02",
     "Across 138 (quick) / 649 (thorough) site variants (4 protections + scope spellings x feature subsets) no credential-less or wrong-credential request (~24 spellings x methods x encodings x archive queries) returned a protected file's or backend's token, except the two archive-of-ancestor findings listed in known_findings.json; every protected file was reached with valid credentials and every feature shown effective.",
     "Feature pairs sampled in quick, all pairs plus random larger subsets in thorough; OPTIONS excluded for basicauth by the statement; names in listings not judged.")
+add("C04", "exploration",
+    "runtime monitoring: recording raw-socket backend and raw-socket client around a real casket proxy (16 upstream-block shapes incl. three retry shapes); field-by-field comparison of method, escaped path, query, header multisets, bodies, status and trailers against a reference transformation written from the statement",
+    "30 000 (quick) / 300 000 (thorough) generated (request, upstream block, backend reply) triples: 7 methods, escaped/UTF-8/double-slash paths, 15 queries, header multisets with repeated/empty/hop-by-hop/Connection-named fields and prior X-Forwarded-For, bodies 0-1 MiB around the 4/32/64 KiB boundaries in both framings, replies with split writes and announced/unannounced/mixed trailers; every triple compared in both directions, about 12 % of them after a failed first attempt.",
+    "Path equality on the RFC 3986 normal form; Host and framing fields of each hop, front-added Server/Date/sniffed Content-Type and Go-transport default User-Agent/Accept-Encoding not judged; request trailers, 1xx, websocket/unix/srv upstreams and an HTTP/2 front not driven; the Connection-with-close leak is a known finding (net/http).")
 add("C05", "fault_enumeration",
     "runtime monitoring: exhaustive enumeration of pool states against every policy with a reference availability oracle; end-to-end fault injection (closed / reset / half-read backends) with body-hash conservation; Go race detector",
     "Every policy is executed on every assignment of host states for pools up to size 7 (quick) / 10 (thorough) x 64 keys, through staticUpstream.Select and Policy.Select, and real proxy blocks are driven against every pattern of failing backends for pools of 2-4; the oracle checks membership in the available set, stickiness, evenness, least-loaded, first, complete body at the healthy backend and the 502 lower time bound.",
@@ -30,6 +34,10 @@ add("C07", "fault_enumeration",
     "runtime monitoring: recorded client/reload histories checked with porcupine against a regular-register model (reload = begin/end write, request = read of the config marker), per-request completeness oracle, listening-socket inode identity and strace bind count; delay hook between start-new and stop-old; Go race detector",
     "Histories of 16-24 concurrent fresh-connection clients over 12-16 reloads (every third one failing at parse / setup / import / startup-callback / listen time) are recorded at the client boundary and decided by a linearizability checker against the register the statement describes; every response must be complete and self-consistent with the configuration that produced it and listening sockets must keep their inodes (thorough: exactly one bind() per address under strace).",
     "HTTP/1.1 plaintext; default 5 s grace; porcupine timeout = inconclusive; SIGUSR1 path is exercised in C08/C16, not here.")
+add("C08", "fault_enumeration",
+    "runtime monitoring: per-attempt quiescent snapshots of hooked process state (instance list, event-hook registry, own listening sockets by inode from /proc, port connectability, answers of running sites) compared before/after every failed attempt; differential run against a fresh process; deadlock decided from the child's own goroutine dump (parked on a casket mutex); Go race detector",
+    "64 (quick) / 1500 (thorough) histories of up to 6 attempts over {validate, Start, Restart, SIGUSR1 via the real TrapSignals handler} x 18 failure kinds (parse, directive setup, missing files, startup callback, occupied port among 4 listeners, TLS/plaintext mix), each in its own child process, every kind at every early position; the final valid load must succeed, serve, and behave as in a fresh process.",
+    "fd counts recorded but only what the statement names is judged; listener creation order inside one failed start is casket's (map order), so a leak is caught per history with probability 2/3 and across histories reliably.")
 add("C10", "exploration",
     "runtime monitoring in child processes with a write-ahead journal: totality oracle (returns; no panic; error names file:line>=1), verifhook step counter bounding import expansions, reference-AST differential round trip through a Dispenser walk",
     "About 0.33 M (quick) / 4.9 M (thorough) executions of the real casketfile.Parse: exhaustive <=4/5-symbol strings over the structural alphabet, mutations, random bytes, 123 import-graph fixtures (51 cyclic), 20 k / 400 k rendered ASTs with layout and placement (snippet / file / glob) variation.",
@@ -38,11 +46,19 @@ add("C12", "exploration",
     "runtime monitoring of the real middleware chain around a scriptable innermost dev directive (verifprobe): sequential raw-socket cases per child process with a same-connection barrier request, client-side reference oracle for status and decoded body, exact attribution of net/http's superfluous-WriteHeader diagnostics, new-connection liveness probe after every panic",
     "Every subset of the 11 wrapping directives (3072 sites thorough, 488 quick) x 58 scripted contract-respecting handler behaviours x {GET,HEAD,POST} x Accept-Encoding {none,gzip}, each checked against the statement's reference (2.1 M requests thorough; 170 k quick).",
     "HTTP/1.1 plaintext, default directive arguments, bodies without template actions; commit count relies on net/http's diagnostic whose capture is proven per run by the panic-after-write positive control.")
+add("C13", "exploration",
+    "runtime monitoring with a reference model (CGI map, split on original bytes) plus differential observation at two responders (byte-level scripted responder recording the exact record stream; Go's net/http/fcgi child) and the client socket; error-log scan after instance stop; HEAD sentinel request for connection integrity",
+    "~10 k (quick) / 400 k (thorough) seeded HTTP exchanges through a real casket instance covering record and length-encoding boundaries (127/128, 65 500), all padding values, interleaved stderr, body sizes around record boundaries in both framings, and extension/path case including length-changing Unicode folds.",
+    "Pairs judged only when 8+name+value <= 65500; chunked CGI replies and 1xx statuses not judged; Linux case-sensitive file system.")
 add("C14", "fault_enumeration",
     "runtime monitoring: invariants asserted at quiescent points on hooked state (UpstreamHost.Conns/Fails vs. backend-side gauges and the monitor's own event log), delay hook in the select/forward window, Go race detector with attribution to the accounting state",
     "Bursts of 4-64 simultaneous requests through the real proxy against gate-holding backends for every setting of hosts x policy x max_conns x max_fails x fail_timeout, with per-request outcomes ok / backend abort / client cancel / panic while committing; Conns must equal forwards at every quiescent point, never exceed max_conns, return to zero; Fails must match unexpired failures, down-ness must follow max_fails, and both must expire.",
     "A backend handler in flight implies a forward in flight only while no client has cancelled (gauge read before cancels); expiry judged with lower bounds only; active health checks not driven.")
 
+add("C18", "exploration",
+    "runtime monitoring: differential twin-site oracle at the socket boundary with strict content-coding decoders (gzip/br/zstd/deflate), scriptable innermost handlers (verifprobe + verifc18), precompressed static fixtures, 16 concurrent connections under the Go race detector attributed to caskethttp/gzip frames",
+    "Every generated request is answered by a plain site and 8 gzip twin sites (default, ext, not, level 1/9, min_length variants); raw responses are strictly decoded per Content-Encoding and compared (22.5 k pairs quick, 542 k thorough); complete enumeration of inner coding x Accept-Encoding x write pattern and of sibling subset x Accept-Encoding x extension.",
+    "Floors require gzip to have been applied per variant/kind/pattern and pre-coded responses to pass; violations re-checked alone to separate pooled-writer cross talk; HTTP/2, HEAD and contract-breaking handlers not driven.")
 LEVEL_NOTE_DEFAULT = ""
 
 def main():
